@@ -532,18 +532,19 @@ GROUPS = ("model", "cov", "moments", "dist", "kl", "stoch")
 
 
 def work_vgbs(task):
-    _, A, n_mean, spec, thetas, nmax, stoch = task
+    """task = ("vgbs", threshold flag, [(A, n_mean, embedding spec, thetas, nmax, stochastic family), ...])."""
+    _, thr, items = task
     res = Res()
-    for theta in thetas:
-        for thr in (False, True):
+    for A, n_mean, spec, thetas, nmax, stoch in items:
+        for theta in thetas:
             case = {"part": "vgbs", "A": A, "n_mean": n_mean, "emb": spec, "theta": list(theta), "threshold": thr, "nmax": nmax, "stoch": stoch}
             res.n += 1
             res.stats["A.configs"] += 1
             vgbs_config(res, case)
             if any(theta):
                 res.nt += 1
-        if len(res.samples) < 1 and any(theta):
-            res.sample({"part": "vgbs", "A": A, "n_mean": n_mean, "embedding": spec[0], "theta": list(theta)})
+                if len(res.samples) < 1:
+                    res.sample({"part": "vgbs", "A": A, "n_mean": n_mean, "embedding": spec[0], "theta": list(theta), "threshold": thr})
     return res
 
 
@@ -615,20 +616,29 @@ def matrices(n, quick):
 
 
 def vgbs_tasks(quick):
-    tasks, decl = [], {}
+    """PNR work units: one (matrix, n_mean, embedding, chunk of the lattice) each.  Threshold-mode configurations are cheap
+    but need the torontonian kernel (JIT-compiled per process): they are packed into a few work units."""
+    pnr, thr_items, decl = [], [], {}
     for n in (4, 3, 2):
         mats = matrices(n, quick)
         decl[f"matrices_n{n}"] = len(mats)
         for A in mats:
             for nm in NMEANS:
                 for spec, lattice, _ in embeddings(n, quick):
+                    thr_items.append((A, nm, spec, lattice, 0, "none"))
                     for axis in (True, False):
                         lat = [t for t in lattice if (nnz(t) <= 1) == axis]
                         nmax, stoch = policy(n, spec, axis, quick)
                         chunk = 9 if n == 4 else 14
                         for k in range(0, len(lat), chunk):
-                            tasks.append(("vgbs", A, nm, spec, lat[k : k + chunk], nmax, stoch))
-    return tasks, decl
+                            pnr.append(("vgbs", False, [(A, nm, spec, lat[k : k + chunk], nmax, stoch)]))
+    nthr = 2 if quick else 8
+    thr = [("vgbs", True, thr_items[k::nthr]) for k in range(nthr)]
+    return thr + pnr, decl
+
+
+def n_configs(tasks):
+    return sum(len(it[3]) for t in tasks if t[0] == "vgbs" for it in t[2])
 
 
 # =============================================================================================== part B: similarity
@@ -889,13 +899,13 @@ def fcf1d_case(res, case):
 
 
 def work_fcf(task):
-    _, w, wp = task
     res = Res()
-    for delta in DELTA:
-        res.n += 1
-        if w != wp or delta:
-            res.nt += 1
-        fcf1d_case(res, {"part": "fcf1d", "w": w, "wp": wp, "delta": delta})
+    for w, wp in task[1]:
+        for delta in DELTA:
+            res.n += 1
+            if w != wp or delta:
+                res.nt += 1
+            fcf1d_case(res, {"part": "fcf1d", "w": w, "wp": wp, "delta": delta})
     return res
 
 
@@ -1052,15 +1062,18 @@ def chem_tasks(quick):
                 marg = (4 if k < 4 else 0) if quick else 6
                 for j in range(0, len(d3), 9):
                     tasks.append(("gbs", w, wp, Ud, d3[j : j + 9], TEMPS, marg))
-    for w in FREQ1:
-        for wp in FREQ1:
-            tasks.append(("fcf", w, wp))
+    # Fock-backend work (JIT-compiled gate kernels per process) is packed into a few work units, scheduled first
+    fock = [("fcf", [(w, wp) for w in FREQ1 for wp in FREQ1])]
     for w in FREQ2:
-        for Ul in O2:
-            tasks.append(("tevo", w, [Ul], TIMES, True))
+        fock.append(("tevo", w, O2, TIMES, True))
     for w in FREQ3:
-        for k, Ul in enumerate(O3):
-            tasks.append(("tevo", w, [Ul], TIMES, (not quick) or k < len(O3_short)))
+        if quick:
+            fock.append(("tevo", w, O3_short, TIMES, True))
+            tasks.append(("tevo", w, O3[len(O3_short) :], TIMES, False))
+        else:
+            for k in range(0, len(O3), 19):
+                fock.append(("tevo", w, O3[k : k + 19], TIMES, True))
+    tasks = fock + tasks
     dc = dusch_cases()
     for k in range(0, len(dc), 100):
         tasks.append(("dusch", dc[k : k + 100]))
@@ -1078,24 +1091,14 @@ def sim_tasks(quick):
     return tasks
 
 
-def warm_up():
-    r = Res()
-    fcf1d_case(r, {"part": "fcf1d", "w": 500.0, "wp": 500.0, "delta": 0.3})
-    tevo_case(r, {"part": "tevo", "w": [1000.0, 1500.0], "Ul": plane_rot(2, 0, 1, 0.5).tolist(), "t": 10.0, "input": [1, 1]})
-    tevo_case(r, {"part": "tevo", "w": [800.0, 1200.0, 3000.0], "Ul": (plane_rot(3, 0, 1, 0.5) @ plane_rot(3, 1, 2, 0.5)).tolist(), "t": 10.0, "input": [1, 0, 1]})
-    for thr in (False, True):
-        vgbs_config(r, {"part": "vgbs", "A": W2, "n_mean": 0.5, "emb": ["Exp", 2], "theta": [0.3, 0.0], "threshold": thr, "nmax": 8, "stoch": "none"})
-    sim_case(r, {"part": "sim", "n": 2, "edges": [[0, 1]], "n_mean": 0.5, "loss": 0.3, "orbit": [1, 1]})
-
-
 def run(ctx):
     quick = ctx.tier == "quick"
     assert haf(np.ones((8, 8))) == 105 and haf(np.ones((6, 6))) == 15 and abs(perm(np.ones((3, 3))) - 6) < 1e-12
     vt, vdecl = vgbs_tasks(quick)
     ct, cdecl = chem_tasks(quick)
     st = sim_tasks(quick)
-    tasks = vt + ct + st  # heavy first
-    warm_up()  # JIT-compile thewalrus / Fock-backend kernels once, before the workers are forked
+    nfock = sum(1 for t in ct if t[0] in ("fcf", "tevo") and (t[0] == "fcf" or t[4]))
+    tasks = ct[:nfock] + vt + ct[nfock:] + st  # JIT-heavy and long work units first
     done = 0
     for r in ctx.pmap(work, tasks, chunksize=1):
         ctx.add(r)
@@ -1104,7 +1107,7 @@ def run(ctx):
             ctx.close()
             ctx.cap_hit(f"time budget hit after {done} of {len(tasks)} work units")
             break
-    exp_configs = sum(2 * len(t[4]) for t in vt)
+    exp_configs = n_configs(vt)
     if ctx.exhaustive and ctx.stats["A.configs"] != exp_configs:
         raise RuntimeError(f"enumerated {ctx.stats['A.configs']} VGBS configurations, declared {exp_configs}")
     ctx.cov["work_units"] = {"vgbs": len(vt), "chemistry": len(ct), "similarity": len(st), "completed": done}
